@@ -759,6 +759,11 @@ def check(program, rep):
     rep.guard("C12-R4", r4_order, program, folder, rep)
     rep.floor("C12-R1", 5)
     rep.floor("C12-R2", 7)
+    # arguments handed to package functions under the wrong name / same-
+    # named optional parameters not passed on (NAMELINK, DESIGN.md 9.13)
+    from .. import namelink as _nl
+    rep.guard("C12-R5", _nl.rule, program, rep, "C12-R5",
+              [m for m in sorted(program.modules) if m.startswith("rig.machine_control")])
     return finish(rep, program, EXPLANATION, NOT_DECIDED,
                   trusted=["region word layout as stated in the property and "
                            "the SC&MP flood-fill documentation (x block "
